@@ -171,6 +171,10 @@ def run(ctx, widen=False):
                 "ALL child orders of the root for <=4 children in thorough); non-trivial = some listed child order contradicts the data flow; distinct seeds")
     base = ctx.seed * 1000003 + 7500000
     pipeline.run_stream(ctx, __name__, range(base, base + n), extra={"exhaustive_children": ctx.thorough(), "max_children": 4}, use_model=True)
+    # second family: parameter links — one source with several deep targets through the same child, target parameters that the routine
+    # using them does not declare (they are named by the forwarding link): the order of a link's targets must not matter
+    pipeline.run_stream(ctx, __name__, range(base + 40000, base + 40000 + n // 2),
+                        extra={"max_children": 3, "max_depth": 3, "p_deep_link": 0.6, "p_multi_deep_link": 0.9, "p_undeclared_param": 0.6}, use_model=True)
 
 
 def replay(payload):
